@@ -217,6 +217,53 @@ def _task(task):
     return t
 
 
+EDIT_PAIRS = [(("int", 32, "unsigned", True), ("int", 16, "unsigned", True)), (("int", 16, "unsigned", True), ("int", 32, "unsigned", True)),
+              (("int", 8, "twosComplement", False), ("int", 24, "twosComplement", True)), (("int", 64, "signed", True), ("int", 32, "unsigned", False)),
+              (("int", 24, "unsigned", True), ("int", 16, "twosComplement", True)), (("int", 12, "unsigned", False), ("int", 20, "twosComplement", False)),
+              (("int", 16, "unsigned", False), ("int", 16, "unsigned", True)), (("int", 40, "twosComplement", True), ("int", 8, "unsigned", True))]
+
+
+def _task_edits(task):
+    """An integer encoding of a loaded (and used) definition corrected through its public attributes - width, sign convention, byte order, one
+    at a time in every order: the next packets decode as the attributes say then (the new width is the old one plus or minus whole bytes, so
+    the rest of the layout still fits)."""
+    import dataclasses
+    import itertools
+    import warnings
+    t = Tally()
+    offset = task["offset"]
+    for (old, new) in EDIT_PAIRS:
+        for order in itertools.permutations(("size_in_bits", "encoding", "byte_order")):
+            for use_first in (True, False):
+                case = {"attr_edits": True, "old": list(old), "new": list(new), "order": list(order), "offset": offset, "decoded_before_edit": use_first}
+                try:
+                    with case_alarm(60), warnings.catch_warnings():
+                        warnings.simplefilter("ignore")
+                        pts, prs, ents, tail = docs.framed_field_variant(ptype_for(old, 0), offset, old[1], "0")
+                        doc = docs.selector_doc([(pts, prs, ents)])
+                        doc2 = dataclasses.replace(doc, ptypes=tuple(ptype_for(new, 0) if p.name == "T0" else p for p in doc.ptypes))
+                        defn = load_doc(doc)
+                        if use_first:
+                            parse_one(defn, docs.packet_for(0, "1" * offset + "01" * (old[1] // 2) + "0" * 8 + "1" * tail))
+                        enc = defn.parameter_types["T0"].encoding
+                        for a in order:
+                            setattr(enc, a, {"size_in_bits": new[1], "encoding": new[2],
+                                             "byte_order": "leastSignificantByteFirst" if new[3] else "mostSignificantByteFirst"}[a])
+                        w = new[1]
+                        for v in (1, (1 << w) - 2, int(("1100" * w)[:w], 2), 1 << (w - 1), int(("0000000100100011" * w)[:w], 2)):
+                            pkt = docs.packet_for(0, "1" * offset + format(v, f"0{w}b") + "1" * 8 + "1" * tail)
+                            why = compare_outcome(decode_packet(doc2, pkt), parse_one(defn, pkt))
+                            t.evals += 1
+                            if why:
+                                t.violation({"kind": "decode-mismatch", "family": "int", "after": "encoding attributes edited on the loaded definition",
+                                             "lsb_first": new[3]}, {**case, "packet": pkt.hex()}, note=why)
+                                break
+                except BaseException as e:  # noqa: BLE001
+                    t.violation({"kind": "sweep-aborted", "exc": type(e).__name__, "part": "attribute-edits"}, case, observed=str(e)[:200])
+                t.nontrivial += 1
+    return t
+
+
 def cold_probe():
     """Subprocess entry (fresh interpreter).  For every configuration the FIRST packet ever decoded with it in this process is one whose field
     is cut short (the decode may fail or be flagged: not judged); the packets after it are complete and must decode exactly.  Whatever the
@@ -293,11 +340,12 @@ def run(ctx):
             tasks.append({"cfgs": [cfg], "offset": off, "tier": ctx.tier})
     tasks.sort(key=lambda t: -(t["cfgs"][0][0] == "float") * 10 - len(t["cfgs"]))
     tally = fan_out(_task, tasks, jobs=ctx.jobs, seed=ctx.seed)
+    tally.merge(fan_out(_task_edits, [{"offset": off} for off in (0, 3)], jobs=ctx.jobs, seed=ctx.seed))
     _cold_start(tally)
     coverage = {
         "programs": tally.programs,
         "exhaustive": True,
-        "bound": ("integers: widths 1..72, 80, 96, 100, 127, 128, 129, 200, 256, 4096, 14296, 16384, 65408 x {unsigned, signed, twosComplement} x {MSB first, LSB first for whole-byte widths} (+ widths 1, 8, 33, 53, 54, 64, 72, 256 with context calibrators that never apply and no default) x "
+        "bound": ("integers: widths 1..72, 80, 96, 100, 127, 128, 129, 200, 256, 4096, 14296, 16384, 65408 x {unsigned, signed, twosComplement} x {MSB first, LSB first for whole-byte widths} (+ widths 1, 8, 33, 53, 54, 64, 72, 256 with context calibrators that never apply and no default; + 8 pairs of integer encodings where the first is turned into the second by editing width, sign convention and byte order on the loaded definition, in every order, before and after first use) x "
                   f"bit offsets 0..7 x (ALL 2^w patterns for w <= {12 if ctx.quick else 16}, else boundary/walking/alternating/index family) x "
                   "neighbour fill {0,1}; floats: binary16 ALL 65536 patterns, binary32/64 every exponent x mantissa family + walking bits + "
                   "specials, MIL-STD-1750A all 256 exponents x ~60 mantissas, both byte orders, also under the deprecated spellings 'MIL-1750A' / 'IEEE-754', "
@@ -318,6 +366,9 @@ def replay(case):
         t = Tally()
         _cold_start(t)
         return next((v for v in t.violations if v["case"].get("packet") == case.get("packet")), None)
+    if case.get("attr_edits"):
+        t = _task_edits({"offset": case["offset"]})
+        return next((v for v in t.violations if all(v["case"].get(k) == case.get(k) for k in ("old", "new", "order", "decoded_before_edit"))), None)
     cfg = tuple(case["cfg"])
     offset = case["offset"]
     pt = ptype_for(cfg, 0)
